@@ -164,6 +164,9 @@ func (r *Run) Sample(s any) {
 	r.mu.Unlock()
 }
 
+// NumSamples: how many sample cases were recorded so far (lets a monitor whose first case was skipped record a later one).
+func (r *Run) NumSamples() int { r.mu.Lock(); defer r.mu.Unlock(); return len(r.Samples) }
+
 // Broken marks the run as a harness failure (exit 2), never a verdict on the property.
 func (r *Run) Broken(why string) {
 	r.mu.Lock()
